@@ -1,12 +1,146 @@
 /-
-  Line-protocol handlers for C19.  `handle` receives the tokens after the property id.
+  Line-protocol handlers for C19 (production weights).  `handle` receives the tokens after the
+  property id.
+
+  Encodings
+    rational : `(num den)`                      class : `(parent weight builtin)`
+    parent   : `none` | index                   weight : `none` | rational
+  Model ops
+    (extract n classes)        → after each of the n successive extractions: `(ok (w₀ w₁ …))`
+                                 (`Grammar.get_weights()` by class index) or `zerodiv` / `assert`
+                                 (the list stops at the first error)
+    (ptd_choose target depth ((recursive dist gnum) …) den draws)  → chosen index
+    (ptd_slices target depth alts den) → for each alternative the number of draws that select it
+    (ptd_choose_pinned …)      → what the pinned decider chose (diagnostics only)
+    (stack_choose den nums draws) → chosen index
+  Property predicates on IMPLEMENTATION output
+    (prop_normalised classes weights)  every rule: weights within [0,1], sum exactly 1
+    (prop_ratios classes weights)      every rule: declared proportions kept; non-productions unchanged
+    (prop_close classes weights tol)   |impl − exact model| ≤ tol for every class, |rule sum − 1| ≤ tol·(#alternatives)
+    (prop_same weights weights' tol)   a further extraction moved no weight by more than tol
+    (prop_respects gnums idx)          the chosen alternative has positive weight, or none has
 -/
 import GEVerif.Model.Sexp
+import GEVerif.Model.Weights
 
 namespace GEVerif.Drive.C19
-open GEVerif Sexp
+open GEVerif Sexp GEVerif.Weights
+
+def parseRat : Sexp → Option Rat
+  | list [n, d] => do
+      let n ← n.asInt?
+      let d ← d.asNat?
+      if d = 0 then none else pure (mkRat n d)
+  | _ => none
+
+def ratSx (q : Rat) : Sexp := list [ofInt q.num, ofNat q.den]
+
+def parseCls : Sexp → Option Cls
+  | list [p, w, b] => do
+      let parent ← match p with
+        | atom "none" => some none
+        | p => p.asNat?.map some
+      let weight ← match w with
+        | atom "none" => some none
+        | w => (parseRat w).map some
+      pure { parent := parent, weight := weight, builtin := ← b.asBool? }
+  | _ => none
+
+def parseGrammar (s : Sexp) : Option Grammar := do
+  (← s.asList?).mapM parseCls
+
+def parseRats (s : Sexp) : Option (List Rat) := do
+  (← s.asList?).mapM parseRat
+
+def extractSteps : Nat → Grammar → List Sexp
+  | 0, _ => []
+  | n + 1, g =>
+    match extract g with
+    | .error .zeroDivision => [atom "zerodiv"]
+    | .error .assertion => [atom "assert"]
+    | .ok g' => list [atom "ok", list ((getWeights g').map ratSx)] :: extractSteps n g'
+
+def absQ (q : Rat) : Rat := if q < 0 then -q else q
+
+/-- weights as a function of the class index -/
+def asFn (ws : List Rat) (c : Nat) : Rat := ws.getD c 1
+
+def normalised (g : Grammar) (ws : List Rat) : Sexp :=
+  let bad := (rules g).filter fun r =>
+    !((alts g r).all (fun c => decide (0 ≤ asFn ws c ∧ asFn ws c ≤ 1)) && sumOver (asFn ws) (alts g r) == 1)
+  match bad with
+  | [] => ofBool true
+  | r :: _ => list [atom "rule", ofNat r, atom "sum", ratSx (sumOver (asFn ws) (alts g r))]
+
+def ratiosKept (g : Grammar) (ws : List Rat) : Sexp :=
+  let okRules := (rules g).all fun r =>
+    (alts g r).all fun c₁ => (alts g r).all fun c₂ =>
+      asFn ws c₁ * declared g c₂ == asFn ws c₂ * declared g c₁
+  let okRest := (List.range g.length).all fun c =>
+    match g[c]?.bind (·.parent) with
+    | some _ => true
+    | none => asFn ws c == declared g c
+  if !okRules then atom "ratios-differ" else if !okRest then atom "non-production-changed" else ofBool true
+
+def close (g : Grammar) (ws : List Rat) (tol : Rat) : Sexp :=
+  match extract g with
+  | .error _ => atom "model-error"
+  | .ok g' =>
+    let okCls := (List.range g.length).all fun c => decide (absQ (asFn ws c - declared g' c) ≤ tol)
+    let okSum := (rules g).all fun r =>
+      decide (absQ (sumOver (asFn ws) (alts g r) - 1) ≤ tol * ((alts g r).length : Nat))
+    if !okCls then atom "weight-off" else if !okSum then atom "sum-off" else ofBool true
+
+def parseAlts (s : Sexp) : Option (List (Bool × Nat × Nat)) := do
+  (← s.asList?).mapM fun a => do
+    match a with
+    | list [r, d, gnum] => pure (← r.asBool?, ← d.asNat?, ← gnum.asNat?)
+    | _ => none
+
+def mkScript (draws : List Nat) : Script := { draws := draws, pos := 0 }
+
+def optNat : Option Nat → Sexp
+  | some i => ofNat i
+  | none => atom "none"
 
 def handle : List Sexp → Option Sexp
+  | [atom "extract", n, classes] => do
+      pure (list (extractSteps (← n.asNat?) (← parseGrammar classes)))
+  | [atom "ptd_choose", target, depth, alts, den, draws] => do
+      let target ← target.asNat?; let depth ← depth.asNat?
+      let alts ← parseAlts alts
+      let hs := alts.map fun a => heur target depth a.1 a.2.1
+      let gs := alts.map fun a => a.2.2
+      pure (optNat (ptdChoose scripted (← den.asNat?) hs gs (mkScript (← draws.asNats?))).1)
+  | [atom "ptd_slices", target, depth, alts, den] => do
+      let target ← target.asNat?; let depth ← depth.asNat?
+      let alts ← parseAlts alts
+      let hs := alts.map fun a => heur target depth a.1 a.2.1
+      let gs := alts.map fun a => a.2.2
+      let acc := accScaled (← den.asNat?) (ptdWeights hs gs)
+      -- number of draws selecting each option: the slice widths, or one each under the uniform fallback
+      if acc.getLastD 0 = 0 then pure (ofNats (alts.map fun _ => 1))
+      else pure (ofNats ((acc.zip (0 :: acc)).map fun p => p.1 - p.2))
+  | [atom "ptd_choose_pinned", target, depth, alts, den, draws] => do
+      let target ← target.asNat?; let depth ← depth.asNat?
+      let alts ← parseAlts alts
+      let hs := alts.map fun a => heur target depth a.1 a.2.1
+      let gs := alts.map fun a => a.2.2
+      pure (optNat (ptdChoosePinned scripted (← den.asNat?) hs gs (mkScript (← draws.asNats?))).1)
+  | [atom "stack_choose", den, nums, draws] => do
+      pure (optNat (stackChoose scripted (← den.asNat?) (← nums.asNats?) (mkScript (← draws.asNats?))).1)
+  | [atom "prop_normalised", classes, ws] => do
+      pure (normalised (← parseGrammar classes) (← parseRats ws))
+  | [atom "prop_ratios", classes, ws] => do
+      pure (ratiosKept (← parseGrammar classes) (← parseRats ws))
+  | [atom "prop_close", classes, ws, tol] => do
+      pure (close (← parseGrammar classes) (← parseRats ws) (← parseRat tol))
+  | [atom "prop_same", ws, ws', tol] => do
+      let a ← parseRats ws; let b ← parseRats ws'; let tol ← parseRat tol
+      pure (ofBool (a.length == b.length && (a.zip b).all fun (x, y) => decide (absQ (x - y) ≤ tol)))
+  | [atom "prop_respects", gs, i] => do
+      let gs ← gs.asNats?; let i ← i.asNat?
+      pure (ofBool (decide (i < gs.length) && (decide (0 < gs.getD i 0) || gs.all (· == 0))))
   | _ => none
 
 end GEVerif.Drive.C19
